@@ -87,7 +87,7 @@ def ops_for(kind):
         out += [('get', 'get', ()), ('set5', 'set', (5,)), ('set7', 'set', (7,))]
     elif kind == 'thing':
         out += [('boom1', 'boom', (1,)), ('boom_s', 'boom', ('s',)), ('bump', 'bump', (2,)), ('items_copy', 'items_copy', ()),
-                ('managed_append', '@managed_append', (9,)), ('managed_len', '@managed_len', ())]
+                ('managed_append', '@managed_append', (9,)), ('managed_len', '@managed_len', ()), ('managed_keep', '@managed_keep', ())]
     return out
 
 
@@ -154,6 +154,17 @@ class Group:
     def issue(self, who, name, method, args):
         """run one call through the given issuer; -> call_method result"""
         from mc import histex
+        if method == '@managed_keep':
+            # fetch another managed proxy of the same hosted value, THEN drop the previously kept one, then use the new one
+            ag = self.agent if who == 'A' else self.local
+            who = 'A' if who == 'A' else 'D'      # both driver threads share the driver's handles
+            k = self.kept.get(who, 0) + 1
+            ag.do('callget', name, 'get_items', (), f'kept{k}')
+            if k > 1:
+                ag.do('dropfast', f'kept{k - 1}')
+                ag.do('gc')
+            self.kept[who] = k
+            return ag.do('call', f'kept{k}', '__len__', ())
         if method.startswith('@managed'):
             # two-step: fetch the managed proxy through get_items(), use it, drop it
             ag = self.agent if who == 'A' else self.local
@@ -189,6 +200,7 @@ class Group:
         self.agent.do('unpickle', name, pickle.dumps(proxy))
         del proxy
         ref = make_reference(kind)
+        self.kept = {}
         try:
             for i, ((opname, method, args), who) in enumerate(zip(seq, issuers)):
                 got = self.issue(who, name, method, copy.deepcopy(args))
@@ -198,7 +210,7 @@ class Group:
                         exp = ('value', None)
                     except Exception as e:
                         exp = ('raised', type(e).__name__, e.args)
-                elif method == '@managed_len':
+                elif method in ('@managed_len', '@managed_keep'):
                     exp = ('value', len(ref.items))
                 else:
                     exp = histex.call_method(ref, method, copy.deepcopy(args))
@@ -213,8 +225,19 @@ class Group:
                     v = compare(kind, 'snapshot:' + method, who, got, exp, [s[0] for s in seq])
                     if v:
                         return v
+            # managed proxies that are still held must still be live (twice: the first request also flushes the server
+            # thread's reference to the previous reply)
+            for who, k in self.kept.items():
+                ag = self.agent if who == 'A' else self.local
+                for _ in range(2):
+                    got = ag.do('call', f'kept{k}', '__len__', ())
+                    v = compare(kind, 'kept-managed-proxy', who, got, ('value', len(ref.items)), [s[0] for s in seq])
+                    if v:
+                        return v
             return None
         finally:
+            for who, k in self.kept.items():
+                (self.agent if who == 'A' else self.local).do('dropfast', f'kept{k}')
             self.local.do('dropfast', name)
             self.agent.do('dropfast', name)
             if self.seq % 500 == 0:
